@@ -401,6 +401,11 @@ impl Check for C11 {
             "a := {\"id\": \"A\", \"f\": fn () {\nreturn this.id\n}}\nxs := [0, 0]\nxs[0:2] = [a.f, a.f]\nprint(xs[1]())\nys := xs[0:1] + xs[1:2]\nprint(ys[1]())\n",
             "xs := [1, 2, 3]\nxs[0:2] = {\"a\": 8, \"b\": 9}\nprint(xs)\n",
             "xs := [1, 2, 3, 4, 5]\nxs[1:4] = xs[0:3]\nprint(xs)\n",
+            "s := [1, 2]\nu := [3, 4]\nprint(s + [u..])\nprint(s + [u.., 5])\nprint(s + [0, u..])\nprint([u..] + s)\nprint((s + [u..])[2] == u[0])\nt := s + [u..]\nt[2] = 9\nprint(u)\n",
+            "s := [1, 2]\nprint(\"pre\")\nprint(s + [5..])\n",
+            "s := \"outer!\"\nfn f(s) {\nprint(s[1] == \"n\")\n{\ns := \"xy\"\nprint(s[1] == \"y\")\nprint(s[0:2] == \"xy\")\n}\nreturn s[2]\n}\nprint(f(\"inn\") == \"n\")\nprint(s[5] == \"!\")\n",
+            "s := \"outer!\"\n{\ns := \"ab\"\nprint(\"pre\")\nt := s[4]\nprint(\"unreachable\")\n}\n",
+            "xs := [7]\nys := [1, 2, 3]\n{\nxs := ys\nprint(xs[2])\nxs[1] = 9\n}\nprint(ys)\nprint(xs)\n",
             "xs := [1, 2, 3, 4, 5]\nxs[0:3] = xs[1:4]\nprint(xs)\n",
             "xs := [1, 2, 3, 4, 5]\nxs[2:5] = xs[0:3]\nprint(xs)\nxs[0:4] = xs[1:5]\nprint(xs)\n",
             "xs := [1, 2, 3, 4, 5]\nys := xs\nxs[1:3] = ys[2:4]\nprint(xs)\nxs[2:4] = ys[1:3]\nprint(ys)\n",
@@ -419,6 +424,12 @@ impl Check for C11 {
                 cases.push(defined_case(src.to_string(), String::from_utf8_lossy(&r.stdout).to_string(), "self-reading index or bound"));
             } else {
                 cases.push(error_case(src.to_string(), "self-reading index or bound out of domain"));
+            }
+        }
+        // bounds and indices far outside the sequence: reported, whatever their size
+        for big in ["9223372036854775807", "9223372036854775806", "1099511627776", "4294967296", "2147483648", "-9223372036854775807", "-9223372036854775807 - 1"] {
+            for tmpl in ["xs := [1, 2, 3]\nb := @\nt := xs[1:b]\n", "xs := [1, 2, 3]\nb := @\nt := xs[b:]\n", "xs := [1, 2, 3]\nb := @\nt := xs[b]\n", "xs := [1, 2, 3]\nb := @\nt := xs[b:b]\n", "xs := [1, 2, 3]\nb := @\nxs[1:b] = [0]\n", "xs := [1, 2, 3]\nb := @\nxs[b] = 0\n", "s := \"héllo\"\nb := @\nt := s[1:b]\n", "s := \"héllo\"\nb := @\nt := s[b]\n", "s := \"héllo\"\nb := @\nt := s[b:b]\n"] {
+                cases.push(error_case(tmpl.replace('@', big), "bound or index far outside the sequence"));
             }
         }
         // indices and bounds are evaluated exactly once, before the right-hand side
